@@ -18,7 +18,7 @@ PROPERTY = "C06"
 
 META = {
     "bounds": {
-        "quick": "all expression trees with <= 2 operators (154 shapes) x 4 renderings x 6 contexts, leaves a..d in [0,2^12), shift amounts s in [0,8); literals: decimal 1-5 digits, 0x + 1-4 hex digits (both cases), 0b + 1-6 bits, all symbolic",
+        "quick": "all expression trees with <= 2 operators (154 shapes) x 4 renderings x 8 contexts, leaves a..d in [0,2^12), shift amounts s in [0,8); literals: decimal 1-5 digits, 0x + 1-4 hex digits (both cases), 0b + 1-6 bits, all symbolic",
         "thorough": "trees with <= 3 operators (all) plus a VERIF_SEED-drawn sample of 4- and 5-operator trees; same leaves; literals up to 6/5/8 digits",
     },
     "outside": [
@@ -36,7 +36,7 @@ OPTS = {"quick": {"deadline_s": 300}, "thorough": {"deadline_s": 900}}
 STYLES = ["min", "sp", "full", "wide"]
 # contexts that use the directive lexer accept only some operators
 DIRECTIVE_OPS = {"+", "-", "*", "<<", ">>", "&"}
-CONTEXTS = ["str", "dl", "symbol", "assign", "macro", "if", "operand"]
+CONTEXTS = ["str", "dl", "symbol", "assign", "macro", "if", "operand", "direct"]
 
 
 def all_trees(nmax):
@@ -147,6 +147,9 @@ def run(spec, cx):
             src = f"*=0x8000\n.macro m(q) {{\n.dl q\n.dw q\n}}\nm({text})\n"
         elif ctx == "if":
             src = f"*=0x8000\n.if {text} {{\n.db 1\n}} else {{\n.db 0\n}}\n"
+        elif ctx == "direct":
+            # operand without '#': an operand that starts with a parenthesised group is still an expression
+            src = f"*=0x8000\nldx.w {text}\n"
         else:
             src = f"*=0x8000\nlda.w #{text}\n"
         r = assemble(src, syms)
@@ -194,6 +197,10 @@ def run(spec, cx):
     raise ValueError(fam)
 
 
+def text_starts_with_group_only(t):
+    return False
+
+
 def _pack(cx, fmt, *vals):
     """Little-endian packing of an already evaluated value (byte-level packing itself is C07's
     subject); built with the same shadow-int operations so that equal values give equal terms."""
@@ -234,7 +241,12 @@ def check(spec, cx, out):
         if ctx == "if":
             res.append(("same-value-in-context", z3.Implies(defined, z3.And(z3.BoolVal(len(bs) == 1), bs[0] == z3.If(bv(V) != 0, B(1), B(0))))))
             return res
-        if ctx == "operand":
+        if ctx == "direct" and text_starts_with_group_only(t):
+            # `ldx.w (expr)` alone is the indirect addressing shape, not an expression: no claim here
+            return res
+        if ctx == "direct":
+            exp = [B(0xAE)] + blist(_pack(cx, "<H", V & 0xFFFF))
+        elif ctx == "operand":
             exp = [B(0xA9)] + blist(_pack(cx, "<H", V & 0xFFFF))
         else:
             exp = blist(_pack(cx, "<HB", V & 0xFFFF, (V >> 16) & 0xFF)) + blist(_pack(cx, "<H", V & 0xFFFF))
